@@ -9,8 +9,9 @@ Property theorems only (lemmas: BoxoModel/C15/{Lemmas,DirLemmas,BitsLemmas}.lean
 The model (BoxoModel/C15/Model.lean) transcribes `hamt.Shard` (swapValue / getValue / walkTrie / Node),
 `BasicDirectory`, `HAMTDirectory` and `DynamicDirectory`; `dstep` / `drun` run exactly the functions the
 line-protocol driver runs.  murmur3 is a parameter `h : Name → List Byte`; shard width `w` is arbitrary.
-`DigitsOK` is the only assumption on the hash: equally long digit strings, no two names with the same
-digits (no full 64-bit collision).
+`DigitsOK U` is the only assumption on the hash: equally long digit strings, and no two names OF THE
+UNIVERSE `U` (any set containing the names the directory holds and the operations mention — finite in
+every run, so the assumption is satisfiable for a 64-bit hash) with the same digits.
 -/
 namespace C15
 open Trie
@@ -20,21 +21,22 @@ the enumeration APIs), every shard width and every hash function without full co
 from any well-formed canonical HAMT directory (in particular the empty one): every answer is the
 map's answer (`remove` of a missing name = notfound, never an error for an existing one), every
 listing is duplicate-free and has exactly the map's entries, and the state keeps denoting the map. -/
-theorem c15_hamt_refines (h : Name → List Byte) (g : Globals) (w : Nat)
-    (ok : DigitsOK (fun n => hashDigits (h n) (lg2 w))) (st : State) (hi : IsHamt h w st) (ops : List DOp) :
-    IsHamt h w (drun h g st ops).1 ∧
+theorem c15_hamt_refines (h : Name → List Byte) (g : Globals) (U : Name → Prop) (w : Nat)
+    (ok : DigitsOK U (fun n => hashDigits (h n) (lg2 w))) (st : State) (hi : IsHamt h U w st) (ops : List DOp)
+    (hops : ∀ op ∈ ops, OpIn U op) :
+    IsHamt h U w (drun h g st ops).1 ∧
       SpecRun false (absState h st) ops (drun h g st ops).2 (absState h (drun h g st ops).1) :=
-  run_refines h g (IsHamt h w) (absState h) false (fun st op hi => hamt_step h g w ok st op hi) ops st hi
+  run_refines h g U (IsHamt h U w) (absState h) false (fun st op hi hop => hamt_step h g U w ok st op hi hop) ops st hi hops
 
 /-- a freshly made HAMT directory is a valid start state denoting the empty map -/
-theorem c15_hamt_fresh (h : Name → List Byte) (g : Globals) (s : Settings) (hd : Hamt) (hn : Hamt.new g s = some hd) :
-    IsHamt h hd.width { dyn := false, dir := .hamt hd } ∧ absState h { dyn := false, dir := .hamt hd } = fun _ => none := by
+theorem c15_hamt_fresh (h : Name → List Byte) (g : Globals) (U : Name → Prop) (s : Settings) (hd : Hamt) (hn : Hamt.new g s = some hd) :
+    IsHamt h U hd.width { dyn := false, dir := .hamt hd } ∧ absState h { dyn := false, dir := .hamt hd } = fun _ => none := by
   have hs : hd.shard = Trie.nil := by
     simp only [Hamt.new] at hn
     split at hn
     · simp at hn
     · split at hn <;> simp at hn <;> (rw [← hn.2])
-  refine ⟨⟨rfl, _, rfl, rfl, by rw [hs]; trivial, by rw [hs]; trivial⟩, ?_⟩
+  refine ⟨⟨rfl, _, rfl, rfl, ⟨by rw [hs]; trivial, by rw [hs]; trivial⟩, by rw [hs]; trivial⟩, ?_⟩
   funext k
   simp only [absState, Hamt.abs, Trie.get, hs]
   split <;> rfl
@@ -46,7 +48,8 @@ theorem c15_basic_refines (h : Name → List Byte) (g : Globals) (ml : Int) (st 
     (ops : List DOp) :
     IsBasic ml (drun h g st ops).1 ∧
       SpecRun (decide (ml > 0)) (absState h st) ops (drun h g st ops).2 (absState h (drun h g st ops).1) :=
-  run_refines h g (IsBasic ml) (absState h) _ (fun st op hi => basic_step h g ml st op hi) ops st hi
+  run_refines h g (fun _ => True) (IsBasic ml) (absState h) _ (fun st op hi _ => basic_step h g ml st op hi) ops st hi
+    (fun op _ => by cases op <;> trivial)
 
 /-- **The only failure of the trie is the depth error, and it needs a full collision**: when `swapValue`
 answers "sharded directory too deep" on a well-formed canonical trie (hashes of equal length), some
@@ -124,12 +127,12 @@ theorem c15_reload_ops (key : Name) (v : Option Lnk) (dgl : Name → List Nat) (
 (`switchToSharding`): the resulting HAMT directory is well-formed, canonical and denotes exactly the map of
 the basic directory's links.  HAMT → basic (`switchToBasic`): the resulting basic directory holds exactly
 the trie's entries, duplicate-free, and answers every lookup as the trie did. -/
-theorem c15_conversions_preserve_entries (h : Name → List Byte) (g : Globals) :
-    (∀ (b : Basic) (hd : Hamt), (b.links.map (·.1)).Nodup → switchToSharding h g b = some hd → DigitsOK (hd.dg h) →
-      hd.Inv h ∧ ∀ k, hd.abs h k = b.getLink k) ∧
+theorem c15_conversions_preserve_entries (h : Name → List Byte) (g : Globals) (U : Name → Prop) :
+    (∀ (b : Basic) (hd : Hamt), (b.links.map (·.1)).Nodup → (∀ e ∈ b.links, U e.1) → switchToSharding h g b = some hd →
+      DigitsOK U (hd.dg h) → hd.Inv h ∧ (∀ k, hd.abs h k = b.getLink k)) ∧
     (∀ (hd : Hamt) (ml : Int) (b : Basic), hd.Inv h → (switchToBasic g hd ml).2 = some (.inl b) →
       b.links = hd.shard.ents ∧ (b.links.map (·.1)).Nodup ∧ ∀ k, b.getLink k = hd.abs h k) :=
-  ⟨fun b hd hn hs ok => switchToSharding_entries h g b hd hn hs ok,
+  ⟨fun b hd hn hu hs ok => ⟨(switchToSharding_entries h g U b hd hn hu hs ok).1, (switchToSharding_entries h g U b hd hn hu hs ok).2.2⟩,
    fun hd ml b hi hs => switchToBasic_entries g (hd.dg h) hd ml b hi.1 hs⟩
 
 /-- **Bit extraction** (`hashBits.Next`, byte-level code with the regenerated `mkmask`): reading `i` bits
@@ -155,10 +158,10 @@ theorem c15_digits (b : List Byte) (lg2 : Nat) (hl : 0 < lg2) :
 
 /-- `DigitsOK` from what is assumed of the hash function: equally long hashes with room for one
 digit, and no two names with the same digit sequence -/
-theorem c15_digitsOK (h : Name → List Byte) (w : Nat) (hl : 0 < lg2 w)
+theorem c15_digitsOK (h : Name → List Byte) (U : Name → Prop) (w : Nat) (hl : 0 < lg2 w)
     (hlen : ∀ a b, (h a).length = (h b).length) (hbig : ∀ a, lg2 w ≤ (h a).length * 8)
-    (hinj : ∀ a b, hashDigits (h a) (lg2 w) = hashDigits (h b) (lg2 w) → a = b) :
-    DigitsOK (fun n => hashDigits (h n) (lg2 w)) where
+    (hinj : ∀ a b, U a → U b → hashDigits (h a) (lg2 w) = hashDigits (h b) (lg2 w) → a = b) :
+    DigitsOK U (fun n => hashDigits (h n) (lg2 w)) where
   len := fun a b => by simp only [hashDigits_length _ _ hl, hlen a b]
   ne := fun a hn => by
     have := hashDigits_length (h a) (lg2 w) hl
